@@ -131,7 +131,7 @@ class ModuleGen(object):
         have_init = False
         for j in range(rng.randint(0, 5)):
             mk = rng.choice(['m', 'static', 'cls', 'prop', 'amethod', 'nestedcls', 'setter', 'deleter', 'wrapped', 'init',
-                             'ctxmethod', 'setter_stacked', 'getter_again'])
+                             'ctxmethod', 'setter_stacked', 'getter_again', 'rewrapped'])
             if mk == 'init':
                 if have_init:
                     mk = 'm'
@@ -146,6 +146,13 @@ class ModuleGen(object):
                     if out[idx].strip() == 'return 1':
                         out[idx] = out[idx].replace('return 1', 'return None')
                         break
+            elif mk == 'rewrapped':
+                # wrapped by an assignment behind the definition (the spelling older code uses instead of decorators)
+                self.func('    ', 'rw%d' % j, '%s.rw%d' % (cn, j), True, nested=False)
+                out.append('    rw%d = %s' % (j, rng.choice(['staticmethod(_deco(rw%d))', 'classmethod(_deco(rw%d))', 'property(fget=rw%d)',
+                                                            '_deco(rw%d) if attr else rw%d', 'staticmethod(rw%d)',
+                                                            '_deco(f=rw%d)']).replace('%d', str(j))))
+                out.append('')
             elif mk == 'amethod':
                 self.func('    ', 'am%d' % j, '%s.am%d' % (cn, j), True, is_async=True)
             elif mk == 'static':
@@ -209,10 +216,16 @@ class ModuleGen(object):
         n = rng.randint(2, 7)
         for k in range(n):
             kind = rng.choice(['func', 'afunc', 'deco', 'class', 'class', 'if', 'try', 'main', 'with', 'adeco', 'ctxmgr', 'notmain', 'handler', 'matcharm', 'tryelse', 'bytesdoc',
-                              'forbody', 'subclass'])
+                              'forbody', 'subclass', 'rewrap'])
             self.spec.features.add('top:' + kind)
             if kind == 'func':
                 self.func('', 'f%d' % k, 'f%d' % k, True)
+            elif kind == 'rewrap':
+                self.func('', 'rw%d' % k, 'rw%d' % k, True)
+                out.append('rw%d = %s' % (k, rng.choice(['_deco(_deco(rw%d))', '_deco(f=rw%d)', '_deco(rw%d) if True else rw%d',
+                                                        '_deco(rw%d)', 'functools.lru_cache(maxsize=None)(rw%d) and rw%d']
+                                                       ).replace('%d', str(k))))
+                out.append('')
             elif kind == 'afunc':
                 self.func('', 'af%d' % k, 'af%d' % k, True, is_async=True)
             elif kind == 'deco':
@@ -417,6 +430,9 @@ OUTCOMES = {
                           'passed', False),
     'disabled': (['>>> # DISABLE_DOCTEST', '>>> mark("{id}")', '>>> raise ValueError("v")'], 'disabled', True),
     'disabled_script': (['>>> # SCRIPT', '>>> mark("{id}")'], 'disabled', True),
+    # the force-disabling comments are recognised whatever their case
+    'disabled_lowercase': (['>>> # disable_doctest', '>>> mark("{id}")'], 'disabled', True),
+    'disabled_titlecase': (['>>> # Unstable: depends on the machine', '>>> mark("{id}")'], 'disabled', True),
     'comment_only': (['>>> # just a comment'], 'skipped', False),
     # a remark, an empty prompt line, and every real statement skipped: nothing runs
     'remark_then_all_skipped': (['>>> # a remark', '>>>', '>>> mark("{id}")  # xdoctest: +SKIP', '>>> print("a")  # xdoctest: +SKIP',
